@@ -58,6 +58,9 @@ def abmfOp (st : Abmf.Store) : Tok → Abmf.Store × String
          | none => 0)
        (st', s!"conc answers={answers} granted={granted} spent={spent} {dumpStore st'}")
      | _, _, _, _, _, _ => (st, "bad-op"))
+  | ["ccr", sess, ty, num, act, subT, sub, rg, rsu, usu, _e2e] =>
+    -- a chosen End-to-End Identifier: the answer and the effect do not depend on it
+    abmfOp st ["ccr", sess, ty, num, act, subT, sub, rg, rsu, usu]
   | ["ccr", sess, ty, num, act, subT, sub, rg, rsu, usu] =>
     -- `0-`: the Requested-Action AVP is absent; the server decodes the zero value
     match bytesOfHex sess, ty.toNat?, num.toNat?, (if act = "0-" then some 0 else act.toNat?), subT.toNat?, bytesOfHex sub, rg.toNat?,
